@@ -178,8 +178,9 @@ Definition g_subops (c : cir) (o : op) : list op := walk_op (fuel_of c) c false 
 Definition g_subblocks (c : cir) (o : op) : list block := blocks_op (fuel_of c) c o.
 Definition g_walk (rev rf : bool) (c : cir) : list op :=
   remove1 root (walk_op (fuel_of c) c rev rf root).
-Definition g_alive (c : cir) : list op :=
-  map fst (filter (fun kv => negb (o_dead (snd kv))) (c_ops c)).
+Definition op_alive (c : cir) (o : op) : bool :=
+  match aget (c_ops c) o with Some r => negb (o_dead r) | None => false end.
+Definition g_alive (c : cir) : list op := filter (op_alive c) (map fst (c_ops c)).
 Definition g_attached (c : cir) : list op := g_subops c root.
 Definition g_trivially_dead (c : cir) (o : op) : bool :=
   match aget (c_ops c) o with
